@@ -434,6 +434,10 @@ func (channel *Channel) addConsumer(method *amqp.BasicConsume) (cmr *consumer.Co
 		return nil, err
 	}
 
+	if err = channel.checkQueueLockWithError(qu, method); err != nil {
+		return nil, err
+	}
+
 	var consumerQos []*qos.AmqpQos
 	if channel.server.protoVersion == amqp.Proto091 {
 		consumerQos = []*qos.AmqpQos{channel.qos, channel.conn.qos}
